@@ -80,6 +80,80 @@ def l1_sliding_e2(tier='quick', case=None, seed=0):
     return out
 
 
+def lf_float_cut(tier='quick', case=None, seed=0):
+    """Lemma F (the float cut every AST rewrite int(np.floor(A/B)) -> A//B, int(np.ceil(A/B)) -> -((-A)//B), int(A/B) -> A//B relies on),
+    decided for IEEE-754 doubles by the cvc5 binary on a bit-precise QF_BVFP encoding: for all integers 0 <= A < 2**K, 1 <= B < 2**M
+    the double-precision expression equals the integer one. K, M are what the bit-blaster finishes in the budget; the general statement
+    (|A| < 2**52) stays an assumption with a paper argument (DESIGN 1.1 rule 3)."""
+    import os, shutil, subprocess, tempfile, time
+    K, M = (12, 6) if tier == 'quick' else (16, 8)
+    kind = case['kind']
+    W = 64
+    tail = {'floor': '(define-fun fl () (_ FloatingPoint 11 53) (fp.roundToIntegral RTN q))\n(assert (not (= ((_ fp.to_ubv %d) RTZ fl) (bvudiv a b))))' % W,
+            'trunc': '(define-fun fl () (_ FloatingPoint 11 53) (fp.roundToIntegral RTZ q))\n(assert (not (= ((_ fp.to_ubv %d) RTZ fl) (bvudiv a b))))' % W,
+            'ceil': '(define-fun fl () (_ FloatingPoint 11 53) (fp.roundToIntegral RTP q))\n(assert (not (= ((_ fp.to_ubv %d) RTZ fl) (bvudiv (bvsub (bvadd a b) (_ bv1 %d)) b))))' % (W, W)}[kind]
+    text = """(set-logic QF_BVFP)
+(declare-const a (_ BitVec {W}))
+(declare-const b (_ BitVec {W}))
+(assert (bvult a (_ bv{A} {W})))
+(assert (bvult b (_ bv{B} {W})))
+(assert (bvuge b (_ bv1 {W})))
+(define-fun fa () (_ FloatingPoint 11 53) ((_ to_fp_unsigned 11 53) RNE a))
+(define-fun fb () (_ FloatingPoint 11 53) ((_ to_fp_unsigned 11 53) RNE b))
+(define-fun q () (_ FloatingPoint 11 53) (fp.div RNE fa fb))
+{tail}
+(check-sat)
+(get-value (a b))
+""".format(W=W, A=2 ** K, B=2 ** M, tail=tail)
+    exe = shutil.which('cvc5')
+    if exe is None:
+        return dict(verdict='unknown', detail='cvc5 binary not on PATH', solver_calls=0, solver_s=0.0, paths=0)
+    d = os.environ.get('VERIF_SCRATCH') or os.path.join(os.path.dirname(os.path.dirname(os.path.abspath(__file__))), '.scratch')
+    os.makedirs(d, exist_ok=True)
+    fd, path = tempfile.mkstemp(suffix='.smt2', dir=d)
+    budget = (case or {}).get('timeout') or _T[tier]
+    try:
+        with os.fdopen(fd, 'w') as h:
+            h.write(text)
+        t = time.perf_counter()
+        try:
+            p = subprocess.run([exe, '--produce-models', '--tlimit=%d' % (budget * 1000), path], capture_output=True, text=True, timeout=budget + 15)
+            lines = (p.stdout + p.stderr).strip().splitlines()
+        except subprocess.TimeoutExpired:
+            lines = ['timeout']
+        dt = time.perf_counter() - t
+    finally:
+        try:
+            os.remove(path)
+        except OSError:
+            pass
+    # reachability twin: python floats on a grid inside the bound must satisfy the same statement (and exercise all three roundings)
+    import math
+    pts = 0
+    for av in list(range(0, 70)) + [2 ** K - 1, 2 ** K - 2, 4095, 1000]:
+        for bv in (1, 2, 3, 5, 7, 2 ** M - 1):
+            if av >= 2 ** K or bv >= 2 ** M:
+                continue
+            got = {'floor': int(math.floor(av / bv)), 'trunc': int(av / bv), 'ceil': int(math.ceil(av / bv))}[kind]
+            want = {'floor': av // bv, 'trunc': av // bv, 'ceil': -((-av) // bv)}[kind]
+            pts += 1
+            if got != want:
+                return dict(verdict='refuted', detail='python floats disagree at A=%d B=%d' % (av, bv), cex=dict(A=av, B=bv, kind=kind), solver_calls=1, solver_s=round(dt, 2), paths=0)
+    out = dict(solver_calls=1, solver_s=round(dt, 2), paths=0, nontrivial=1 + pts,
+               samples=[dict(lemma='LF_float_cut/' + kind, kind='QF_BVFP query decided by cvc5', bound='0 <= A < 2**%d, 1 <= B < 2**%d' % (K, M), grid_points=pts)])
+    first = lines[0].strip() if lines else ''
+    # (get-value) after an unsat answer prints an (error ...) line: only errors *before* the verdict make the run inconclusive
+    if first.startswith('(error') or (first not in ('sat', 'unsat') and any('(error' in l for l in lines)):
+        out.update(verdict='unknown', detail='cvc5 error: %s' % ' '.join(lines)[:200])
+    elif first == 'unsat':
+        out.update(verdict='unsat', detail='cvc5 unsat for 0 <= A < 2**%d, 1 <= B < 2**%d (%s, %.1fs)' % (K, M, kind, dt))
+    elif first == 'sat':
+        out.update(verdict='refuted', detail='cvc5 sat: %s' % ' '.join(lines[1:])[:200], cex=dict(kind=kind, model=' '.join(lines[1:])[:200]))
+    else:
+        out.update(verdict='unknown', detail='cvc5: %s after %.0fs' % (first or 'no answer', dt))
+    return out
+
+
 def _l2_bins_ct(p: int, b: int, s: int) -> bool:
     """
     pre: 0 <= p <= 12
@@ -142,6 +216,8 @@ _T = {'quick': 150, 'thorough': 900}
 LEMMAS = [
     dict(name='L1_sliding_unbounded', run='l1_sliding_e2', engine='E2', timeout=_T, replay='replay.C10:replay',
          cases={'quick': [dict(id='bamToCountTable', which='bamToCountTable'), dict(id='utils.binning', which='utils.binning')]}),
+    dict(name='LF_float_cut_bounded', run='lf_float_cut', engine='E2', timeout={'quick': 200, 'thorough': 1500}, replay='replay.C10:replay',
+         cases={'quick': [dict(id=k, kind=k) for k in ('floor', 'trunc', 'ceil')]}),
     dict(name='L2_bins_list_ct', fn='_l2_bins_ct', engine='E1', timeout=_T, replay='replay.C10:replay',
          cases={'quick': [dict(id='b%d' % b, pre=['b == %d' % b]) for b in (1, 2, 3, 4)]}),
     dict(name='L2_bins_list_ub', fn='_l2_bins_ub', engine='E1', timeout=_T, replay='replay.C10:replay',
@@ -153,12 +229,12 @@ LEMMAS = [
 ]
 
 PROPERTY = dict(
-    functions=['bamToCountTable.coordinate_to_sliding_bin_locations', 'bamToCountTable.coordinate_to_bins',
+    functions=['(lemma F: IEEE-754 double division + floor / ceil / truncation, encoded directly in SMT-LIB2 QF_BVFP)', 'bamToCountTable.coordinate_to_sliding_bin_locations', 'bamToCountTable.coordinate_to_bins',
                'utils.binning.coordinate_to_sliding_bin_locations', 'utils.binning.coordinate_to_bins',
                'bamToCountTable.assignReads (binning branch) + read_should_be_counted + readTag/metaFromRead', 'bamToCountTable.create_count_table: per-file loop (AST cut)'],
     bounds=dict(L1='all integers p >= 0, 1 <= s <= b (unbounded, z3 Int/Real; NIA)', L2_L3='p 0..12, 1 <= s <= b <= 4, contig length 1..14, keepOverBounds symbolic'),
     outside=['pandas export of the table', 'negative coordinates', 'split_double_BAM (calls coordinate_to_bins(p,b,b)[0], covered through L1/L2)'],
-    assumptions=['float cut: int(np.ceil(A/B)) = -((-A)//B), int(np.floor(A/B)) = A//B (lemma F: exact for |A| < 2**52, 0 < B < 2**31); E2 treats float division as real division',
+    assumptions=['float cut: int(np.ceil(A/B)) = -((-A)//B), int(np.floor(A/B)) = A//B (lemma F: exact for |A| < 2**52, 0 < B < 2**31 - paper argument; decided bit-precisely by cvc5 (QF_BVFP, IEEE doubles) only for 0 <= A < 2**12, 1 <= B < 2**6 in the quick tier and 2**16 / 2**8 in the thorough tier: lemma LF_float_cut_bounded); E2 treats float division as real division',
                  'float cuts applied at load: %r' % (_CUTS,)],
     trusted=['vlib/py2smt.py translator (validated on a grid against the real functions on every run)', 'vlib/floatcut.py', 'stubs/fakeread.py', 'spec/c10.py'],
 )
